@@ -83,6 +83,14 @@ func cmdVerify(args []string) {
 		if *ssaDump {
 			fn.WriteTo(os.Stdout)
 		}
+		for _, r := range guardClauseResults(eng, strings.SplitN(name, "#", 2)[0]) {
+			mark := "ok  "
+			if !r.OK {
+				mark = "FAIL"
+				bad++
+			}
+			fmt.Printf("  %s %-8s %-7s       %s   [%s] %s\n", mark, "frames", "frames", r.Name, r.Desc, r.Detail)
+		}
 		v, err := eng.Verify(name)
 		if err != nil {
 			fmt.Println("verify:", err)
